@@ -720,3 +720,15 @@ func Exec(o Op) (out string) {
 	}
 	return "?"
 }
+
+// Sample wraps one value of the vocabulary with its explicit schema (for other
+// scenarios that want reflection-bound nodes of many shapes in their pools).
+// which selects the type, val the value; both are reduced modulo what exists.
+func Sample(which, val int) (name string, n schema.TypedNode) {
+	vt := vocab[which%len(vocab)]
+	st := ts().TypeByName(vt.schema)
+	return vt.name, bindnode.Wrap(vt.vals[val%len(vt.vals)](), st)
+}
+
+// VocabSize is the number of types in the vocabulary.
+func VocabSize() int { return len(vocab) }
